@@ -165,7 +165,7 @@ def checkReasons (st : St) (o : MemObs) : Option Fail :=
 def step (p : Params) (st : St) (o : MemObs) : St × Option Fail :=
   -- 0. what the harness does with handles / new records (inputs, not observations)
   let newRec : Option MRec := match o.op with
-    | .ins key ver weight _ phantom =>
+    | .ins key ver weight _ phantom _ _ =>
       some { rid := st.nextRid, key, ver, weight, phantom, shard := p.cfg.shardOf (p.cfg.H key) }
     | _ => none
   let stR : St := match newRec with
@@ -195,7 +195,7 @@ def step (p : Params) (st : St) (o : MemObs) : St × Option Fail :=
   -- 2. C05: evictions are necessary and sufficient (judged on the pre-state reconstruction)
   let nsh := p.cfg.nshards
   let fEvict : Option Fail := match o.op with
-    | .ins key _ weight _ phantom =>
+    | .ins key _ weight _ phantom _ _ =>
       let i := p.cfg.shardOf (p.cfg.H key)
       let vict := (o.leaves.filter fun (e, _) => e = Reason.evict).map (·.2.rid)
       if phantom then
